@@ -34,6 +34,13 @@ func tfTrees() []treeGen {
 		}},
 		{"T2", func() any { return NewObject() }},
 		{"T3", func() any { return NewList() }},
+		{"T6", func() any { // multi-byte keys on intermediate segments, lists of lists followed by keys
+			return NewObject("é", NewObject("x", 1, "日本", NewList(NewObject("z", 2))), "données", NewList(0, NewObject("k", "v")), "😀", NewList(NewList(NewList(5))), "a", NewObject("日本", NewObject("z", 3)),
+				"m", NewList(NewList(NewObject("name", "n0"), NewObject("name", "n1"))))
+		}},
+		{"T7", func() any {
+			return NewList(NewList(NewObject("name", "a"), NewObject("name", "b")), NewList(NewList(NewObject("deep", 1))))
+		}},
 	}
 }
 
@@ -54,7 +61,8 @@ func tfPaths(maxLen int) []string {
 		}
 	}
 	gen("", 0)
-	out = append(out, ".a.l#1.c", ".a.l#2#1", ".l#3", ".l#0", "#0.0#0", "#1#0.a#1", ".a.b.c", ".l#1.x", "..a", ".a..b", "#0..a", ".", "#", ".#0", "#.a", ".a.l#-1", ".a.l#1x", "#18446744073709551616", ".a.l#00", ".l#4", ".a.l#3")
+	out = append(out, ".é.x", ".é.日本#0.z", ".données#1.k", ".données#1", ".😀#0#0", ".😀#0#0#0", ".a.日本.z", ".é", ".é.", ".m#0#1.name", ".m#0#0.name", "#0#1.name", "#1#0#0.deep", "#0#0", "#0#1", "#1#0#0", ".hé", ".é.y",
+		".a.l#1.c", ".a.l#2#1", ".l#3", ".l#0", "#0.0#0", "#1#0.a#1", ".a.b.c", ".l#1.x", "..a", ".a..b", "#0..a", ".", "#", ".#0", "#.a", ".a.l#-1", ".a.l#1x", "#18446744073709551616", ".a.l#00", ".l#4", ".a.l#3")
 	return out
 }
 
